@@ -30,6 +30,17 @@ pub open spec fn mr_domain_ok<T: AbstractDomain + SizedDomain + HasTop>() -> boo
     &&& forall |a: T, b: T| #[trigger] call_ensures(T::clone, (&a,), b) ==> a == b
 }
 
+/// Additional HYPOTHESES needed only by `MemRegion::merge` (which returns `self.clone()` when `self == other`):
+/// `==` on values decides specification equality, and merge is idempotent.
+pub open spec fn mr_eq_is_spec_eq<T: AbstractDomain + SizedDomain + HasTop>() -> bool {
+    &&& T::obeys_eq_spec()
+    &&& forall |a: T, b: T| #[trigger] a.eq_spec(&b) <==> a == b
+}
+
+pub open spec fn mr_merge_idem<T: AbstractDomain + SizedDomain + HasTop>() -> bool {
+    forall |a: T| #[trigger] a.merge_spec(&a) == a
+}
+
 /// THE INVARIANT of the property: no stored cell is the unknown value (and no cell is empty),
 /// no two stored cells overlap.
 pub open spec fn mr_cells_ok<T: AbstractDomain + SizedDomain + HasTop>(m: Map<i64, T>) -> bool {
